@@ -12,6 +12,8 @@
 //!   `c10.ctor.new <kind> S`         `UserId::new` / `RoomId::new` / `EventId::new` (T3 only)
 //!   `c10.ctor.b64 S`                `OwnedBase64PublicKey::with_bytes` (S = raw bytes in hex)
 //!   `c10.exh <kind> S ORA`          `c10.id` on prefix ++ [a, b] for all a, b of the alphabet
+//!   `c10.ctor.secret`               `ClientSecret::new()` (T3 only: 32 lower-case hex digits, accepted)
+//!   `c10.voipver S` / `c10.voipver iN`   `VoipVersionId` from a string (stores it) / from an integer (only 0)
 //!   `c10.opaque <type> S`           unchecked identifier types: every form stores any string (T3)
 //!   `c10.ip6 S` / `c10.ip4 S` / `c10.ipexh …`   `std::net` parsers vs their Lean reference (ip.rs)
 mod gen;
@@ -685,6 +687,53 @@ fn run_new(kind: Kind, server: &str) -> Outcome {
     Outcome { imp: "ok".into(), t3 }
 }
 
+fn run_secret() -> Outcome {
+    let mut t3 = vec![];
+    let c = ClientSecret::new();
+    let s = c.as_str();
+    if !(s.len() == 32 && s.bytes().all(|b| b.is_ascii_digit() || (b'a'..=b'f').contains(&b))) {
+        t3.push("ClientSecret::new() is not 32 lower-case hex digits".into());
+    }
+    if !accepted(Kind::ClientSecret, s) {
+        t3.push("ClientSecret::new() built a secret the parser rejects".into());
+    }
+    Outcome { imp: "ok".into(), t3 }
+}
+
+fn run_voipver(tok: &str) -> Outcome {
+    use ruma_common::VoipVersionId;
+    let mut t3 = vec![];
+    if let Some(s) = arg(tok) {
+        let forms: Vec<(&str, Option<String>)> = vec![
+            ("From<&str>", Some(VoipVersionId::from(s.as_str()).as_str().to_owned())),
+            ("From<String>", Some(VoipVersionId::from(s.clone()).as_str().to_owned())),
+            ("Deserialize", serde_json::from_value::<VoipVersionId>(serde_json::Value::String(s.clone())).ok().map(|v| v.as_str().to_owned())),
+            ("Display", Some(VoipVersionId::from(s.as_str()).to_string())),
+            ("String::from", Some(String::from(VoipVersionId::from(s.as_str())))),
+            ("Serialize", serde_json::to_value(VoipVersionId::from(s.as_str())).ok().and_then(|v| v.as_str().map(str::to_owned))),
+        ];
+        for (name, r) in forms {
+            if r.as_deref() != Some(s.as_str()) {
+                t3.push(format!("VoipVersionId form `{name}` does not store the string byte-for-byte"));
+            }
+        }
+        return Outcome { imp: format!("ok {}", stok(&s)), t3 };
+    }
+    let Some(n) = tok.strip_prefix('i').and_then(|n| n.parse::<u64>().ok()) else { return Outcome::bad() };
+    let Ok(u) = js_int::UInt::try_from(n) else { return Outcome::bad() };
+    let a = VoipVersionId::try_from(u).map(|v| v.as_str().to_owned()).map_err(drop);
+    let b = serde_json::from_value::<VoipVersionId>(serde_json::json!(n)).map(|v| v.as_str().to_owned()).map_err(drop);
+    if a != b {
+        t3.push("VoipVersionId: TryFrom<UInt> and Deserialize(number) disagree".into());
+    }
+    if let Ok(v) = VoipVersionId::try_from(u) {
+        if serde_json::to_value(&v).ok() != Some(serde_json::json!(0)) {
+            t3.push("VoipVersionId::V0 does not serialize as the number 0".into());
+        }
+    }
+    Outcome { imp: match a { Ok(s) => format!("ok {}", stok(&s)), Err(()) => "err".into() }, t3 }
+}
+
 fn run_b64(bytes: &[u8]) -> Outcome {
     use ruma_common::serde::{base64::Standard, Base64};
     let mut t3 = vec![];
@@ -798,6 +847,18 @@ pub fn run(req: &str) -> Outcome {
             run_key_ctor(kind, &alg, &name)
         }
         "c10.ip6" | "c10.ip4" | "c10.ipexh" => ip::run(&toks),
+        "c10.ctor.secret" => {
+            if toks.len() != 1 {
+                return bad();
+            }
+            run_secret()
+        }
+        "c10.voipver" => {
+            if toks.len() != 2 {
+                return bad();
+            }
+            run_voipver(toks[1])
+        }
         "c10.opaque" => {
             if toks.len() != 3 {
                 return bad();
@@ -956,6 +1017,15 @@ fn gen(rng: &mut Rng, n: usize, tier: &str) -> Vec<Req> {
                 _ => gen::gen_valid(*rng.pick(KINDS), rng),
             };
             out.push(Req::new(format!("c10.opaque {ty} {}", stok(&s)), format!("{ty}.opaque")));
+            if i % 64 == 0 {
+                out.push(Req::new("c10.ctor.secret", "ctor-secret.ctor"));
+                let v = match rng.below(3) {
+                    0 => format!("i{}", *rng.pick(&[0u64, 1, 2, 255, 9007199254740991])),
+                    1 => stok(*rng.pick(&["0", "1", "2", "", "01", "é", "1 ", "v1"])),
+                    _ => stok(&gen::gen_junk(rng)),
+                };
+                out.push(Req::new(format!("c10.voipver {v}"), "voipver.opaque"));
+            }
         }
         let kind = *rng.pick(KINDS);
         let (s, src) = match rng.below(20) {
